@@ -146,6 +146,8 @@ def run(replay=None):
               'globally: no a {s = "q\\"uote"}', 'globally: no a {x = 1' + '0' * 320 + '}', 'globally: no a {x = 7' + '3' * 4400 + '}', 'globally: no a {x > 0} within 1' + '0' * 4400 + ' s',
               'globally: no a {x in {1, 2' + '0' * 5000 + ', 3}}', 'globally: no a {x > 9223372036854775808}',
               'globally: no a {x < 1e999}', 'globally: no a {x <= 1.7976931348623157e308}', 'globally: some a within 1.7976931348623157e308 s', 'globally: no a {x > 5e-324 and y < 2.2250738585072014e-308}', 'globally: no a {x > 1}\nglobally: some b', '# id: first\nglobally: no a\n# id: second\nafter b as B: c {y = @B.y} causes d within 100 ms',
+              'globally: no a {frame_id = "$HOME"}', 'globally: no a {s = "~"}', 'globally: no a {s = "${PATH}/x" and t = "~root"}', 'globally: some ~/a', 'globally: no $HOME',
+              'globally: no a {s = "%TEMP%" and t = "$$" and u = "`id`" and v = "$(id)"}', '~', '$HOME', 'globally: no a {s = "\\$HOME"}',
               'globally: no a globally: no b', '# id: p1\nglobally: no a', '# id: p1\n# id: p2\nglobally: no a', 'globally: no a {x = 18446744073709551615 and y in [-1e400 to 1e400]}', 'globally: (a or a) causes b', 'globally: no a {-x ** 2 = abs(y)}']
     files = ['# id: p1\n# title: "T"\nglobally: no a {x > 0}\n\n# id: p2\nafter b: some c within 1 s',
              'globally: no a\nglobally: no b {x = NAN}', '# id: p1\n# id: p2\nglobally: no a', 'globally: no a\nglobally: no',
